@@ -221,6 +221,17 @@ class C06(Prop):
                         or calls[i][2] != n:
                     f.append(f"sampling-call: dimension {i} is not sampled with its marginal's weights over its degree range")
                     break
+            # the entry point builds the table a second time (it calls create_jdd again): with the scripted columns both builds
+            # see the same samples, so the dispatched loader must expose the same frequency table, and must have sampled
+            if "exc" in l:
+                f.append(f"dispatch-differs: loading through the entry point raised {l['exc']}")
+            elif not l.get("rng_unexpected") and not d.get("rng_unexpected"):
+                got_l = {tuple(key): Fraction(v) for key, v, _ in l["table"]}
+                if not l["calls"]:
+                    f.append("dispatch-differs: sampling was requested, the loader built through the entry point did not sample")
+                elif got_l != want:
+                    f.append("dispatch-differs: loading through the entry point gives a different distribution than direct "
+                             "construction on the same samples")
         else:
             fp = {tuple(key): Fraction(v) for key, v in case["fp"]}
             want = {tuple(kk): fp.get(tuple(kk), Fraction(0))
